@@ -96,6 +96,45 @@ def check_region(res, r, rng, desc):
         res.violation('`in` differs from contains', case=desc)
 
 
+def check_integer_inputs(res, rng, k):
+    """regions with Python-int parameters queried with narrow integer arrays far from the region: machine integers must not wrap"""
+    cx, cy, a, b = rng.randint(-50, 50), rng.randint(-50, 50), rng.randint(3, 40), rng.randint(3, 40)
+    ang = (0, 30, 90, 215)[k % 4] * u.deg
+    c = PixCoord(cx, cy)
+    regs = [CirclePixelRegion(c, a), EllipsePixelRegion(c, a, b, ang), RectanglePixelRegion(c, a, b, ang),
+            CircleAnnulusPixelRegion(c, a, a + b), EllipseAnnulusPixelRegion(c, a, a + b, b, 2 * b, ang),
+            RectangleAnnulusPixelRegion(c, a, a + b, b, 2 * b, ang),
+            PolygonPixelRegion(PixCoord([cx, cx + a, cx + a, cx], [cy, cy, cy + b, cy + b]))]
+    for dt, lim in (('int16', 30000), ('int32', 2 * 10 ** 9), ('int64', 2 ** 40), ('int8', 60)):   # differences with the centre always fit the dtype; squares need not
+        far = [rng.randint(-lim, lim) for _ in range(12)] + [cx + 1, cx, min(lim, cx + 2 * a + b), -lim, lim, 182 + cx, 46341 % lim]
+        fary = [rng.randint(-lim, lim) for _ in range(12)] + [cy + 1, cy, cy, -lim, lim, cy, cy + 1]
+        near = [max(-lim, min(lim, cx + rng.randint(-2 * a, 2 * a))) for _ in range(10)]
+        neary = [max(-lim, min(lim, cy + rng.randint(-2 * b, 2 * b))) for _ in range(10)]
+        clip = lambda L: [max(-lim, min(lim, v)) for v in L]
+        xs, ys = np.array(clip(far + near), dt), np.array(clip(fary + neary), dt)
+        for r in regs:
+            desc = ('integer-inputs', type(r).__name__, dt, k)
+            res.case(desc[:3])
+            try:
+                out = np.asarray(r.contains(PixCoord(xs, ys)))
+            except Exception as e:
+                res.violation(f'{type(e).__name__}: {e}', case=desc, region=str(r))
+                continue
+            if out.shape != xs.shape or out.dtype != bool:
+                res.violation(f'{dt} query of shape {xs.shape} gives {out.dtype} {out.shape}', case=desc)
+                continue
+            for x, y, o in zip(xs.tolist(), ys.tolist(), out.tolist()):
+                if isinstance(r, PolygonPixelRegion):
+                    if poly_near_edge(r, x, y, 1e-9):
+                        continue
+                    lo = hi = crossings_odd(np.asarray(r.vertices.x, float), np.asarray(r.vertices.y, float), float(x), float(y))
+                else:
+                    lo, hi = spec_member(r, float(x), float(y), 1 - 1e-9), spec_member(r, float(x), float(y), 1 + 1e-9)
+                if lo == hi and bool(o) != lo:
+                    res.violation(f'{dt} point ({x}, {y}): contains -> {bool(o)}, geometric definition {lo}', case=desc, region=str(r))
+                    break
+
+
 def main():
     prop, tier, seed, out = sys.argv[1], sys.argv[2], int(sys.argv[3]), sys.argv[4]
     rng = random.Random(seed)
@@ -123,6 +162,8 @@ def main():
                 check_region(res, r, rng, desc)
             except Exception as e:
                 res.violation(f'{type(e).__name__}: {e}', case=desc, region=str(r))
+    for k in range(4 if tier == 'quick' else 60):
+        check_integer_inputs(res, rng, k)
     res.write(out)
 
 
